@@ -600,11 +600,13 @@ def r054_path(be, it, ctx, mems, rep):
                 el = ch if k_ == 0 else ch.meta.get(('elem', k_))
             ex = settle(it, field(el, 'expr')) if isinstance(el, Obj) else None
             bj = _bool_value(it, be.E, ctx, f['new'], ex) if (may_bool and TB is not None and isinstance(ex, Obj)) else None
+            if bj is not None and bj[0] is False:
+                # an obligation of its own (the merge formula is judged independently below)
+                rep.ob('R05.4', '%s:write_gvar_data:merge-new-value/%s' % (U, bj[1]), False,
+                       'static bit-field of type _Bool (`struct { _Bool f:1; } s = {2};` stores 0, gcc and the automatic back end give 1): ' + bj[2],
+                       where='%s:%d' % (U, s[3]), facts={'path': ctx.trail})
             if not okold:
                 ok = False; msg = 'the bit-field merge does not start from the bytes already in the storage unit (neighbouring bit-fields are lost)'; construct = 'merge-old-value'
-            elif bj is not None and bj[0] is False:
-                ok = False; construct = 'merge-new-value/' + bj[1]
-                msg = 'static bit-field of type _Bool (`struct { _Bool f:1; } s = {2};` stores 0, gcc and the automatic back end give 1): ' + bj[2]
             elif bj is not None and bj[0] is True and is_bool:
                 pass
             elif not ev:
@@ -1509,6 +1511,8 @@ def _tk_hook(base):
             nx = Obj('Token', lazy=True, label=(o.label or 'tok') + '.next')
             nx.meta['prev'] = o
             return nx
+        if o.tname == 'Member' and f == 'is_bitfield':
+            return 0        # the separator protocol does not depend on the members: structs without bit-fields (R05.13 judges the member cursor)
         return base(it, ctx, o, f, t)
     return hook
 
